@@ -178,4 +178,26 @@ CHECKS = {
         "note": COMMON_NOTE + "YAML/JSON parsers are not modelled (spelling equivalence tested through the real read_config only). jsonschema is a modelled third party (Draft 2020-12 choice and $ref-sibling semantics measured each run). No claim about unknown root-level keys.",
         "technique": "Lean 4 theorems (induction on paths / sizeOf over the nested JSON type; fuel-indexed schema evaluator; decide +kernel on translated schema data) + differential correspondence + independent oracles",
     },
+    "C08": {
+        "text": "For each of the nine systems, for all c : Fin 21 -> R: the relation rows translated from cij/data/constraints/* on this run hold "
+                "<=> the full 3^4 tensor is invariant under every generator of the Laue class (standard setting). Proved from kernel-checked "
+                "certificates over Z[sqrt 3] (d K = L N, d' N = L' K); the action matrices are computed by the model's rotate and lifted to R. "
+                "Generators are proved to be the named proper rotations of the named order; invariance closes under products; inversion acts "
+                "trivially. fill_consistent: a consistent, determined table is filled with exactly the invariant tensor, supplied entries "
+                "unchanged; vanishing components omitted. All 314 minimal sufficient subsets plus random supersets go through the real "
+                "fill_cij and apply_symetry_on_elast_data; oracle: numpy einsum invariance under explicit rotation matrices.",
+        "note": COMMON_NOTE + "tools/gen_certs.py is untrusted: it only proposes certificate matrices which the Lean kernel multiplies out (regenerated from the current constraints files on every run; an edited sign or factor makes the certificate theorem false).",
+        "technique": "Lean 4 certificate checking (decide +kernel over Z[sqrt 3]) + ring-hom lifting to R + differential correspondence + independent rotation oracle",
+    },
+    "C09": {
+        "text": "Exact model of fill_cij over any ordered field, run over Rat on the same tables: a verified kernel-vector decision gives rank "
+                "refusal <=> a non-zero relation-compatible tensor vanishes on all supplied components (no numerical threshold); the written "
+                "solution is the exact least-squares solution, unique when determined; acceptance => every supplied value and every relation "
+                "is off by <= sqrt(atol) (also under ignore_rank), and by 0 when the data are consistent; residual refusal iff; flags only "
+                "disable refusals; lookup independent of Path.exists and a relations file is used; non-modulus columns pass through; "
+                "vanishing components dropped; triclinic refuses iff a component is missing. PARTIAL: full 'same map' statement for column "
+                "order/case is proved for recognition, the rank decision and the determined solution only; dtype and NaN are outside the model.",
+        "note": COMMON_NOTE + "numpy.linalg.lstsq's numerical rank threshold is replaced by exact rank (inputs keep singular values well separated); the model's own solver result is checked, its completeness is observed not proved.",
+        "technique": "Lean 4 proofs with a verified kernel-vector decision and checked least-squares certificates + exact-rational correspondence + sympy/Fraction oracle",
+    },
 }
